@@ -16,8 +16,9 @@ import time
 pid, var = sys.argv[1], sys.argv[2]
 extra = sys.argv[3:]
 wt = "/tmp/wt_%s" % pid
-patch = "%s/seeded_%s_%s.patch" % (wt, pid, var)
-demo = "%s/tests/seeded_demo_%s_%s.rs" % (wt, pid, var)
+srcvar = os.environ.get("SEED_SRCVAR", var)     # the letter the sub-agent used in its file names (round 5: G/H/I kept as J/K/L)
+patch = "%s/seeded_%s_%s.patch" % (wt, pid, srcvar)
+demo = "%s/tests/seeded_demo_%s_%s.rs" % (wt, pid, srcvar)
 FEAT = ["--features", "fibex,statistics,stream"]
 
 
@@ -72,7 +73,7 @@ if not confirmed:
 if MODE == "confirm":
     os.makedirs(d, exist_ok=True)
     shutil.copy(patch, d + "/patch.diff")
-    shutil.copy(demo, d + "/" + os.path.basename(demo))
+    shutil.copy(demo, d + "/seeded_demo_%s_%s.rs" % (pid, var))
     old = json.load(open(d + "/meta.json")) if os.path.exists(d + "/meta.json") else {}
     old.update(meta)
     json.dump(old, open(d + "/meta.json", "w"), indent=1)
@@ -95,7 +96,7 @@ meta["detected_by_own_check"] = results[pid]["rc"] == 1
 os.makedirs(d, exist_ok=True)
 if MODE != "check":
     shutil.copy(patch, d + "/patch.diff")
-    shutil.copy(demo, d + "/" + os.path.basename(demo))
+    shutil.copy(demo, d + "/seeded_demo_%s_%s.rs" % (pid, var))
 meta["ran"] = ["cargo test --workspace --no-fail-fast --offline (with change; and with --features fibex,statistics,stream)", "cargo test --offline --test <demo> --features fibex,statistics,stream (with and without change)",
                "git -C /repo apply patch.diff; ./check %s; git -C /repo checkout -- ." % pid]
 old = {}
